@@ -151,7 +151,7 @@ func (a *T0x0200AdditionDetails) parse(body []byte) error {
 			return additionLen == 6
 		case 0x13:
 			return additionLen == 7
-		case 0x30:
+		case 0x30, 0x31:
 			return additionLen == 1
 		}
 		return true
@@ -210,7 +210,7 @@ func (a *T0x0200AdditionDetails) decode(id uint8, content []byte) AdditionConten
 		tmp.OverSpeedAlarm = AdditionOverSpeedAlarm{
 			LocationType: content[0],
 		}
-		if content[0] != 0 {
+		if content[0] != 0 && len(content) == 5 {
 			tmp.OverSpeedAlarm.AreaID = binary.BigEndian.Uint32(content)
 		}
 	case 0x12:
